@@ -38,7 +38,10 @@ def _has_literal_repr(value):
         return value == value and value not in (float('inf'), float('-inf'))
     if type(value) is complex:
         return _has_literal_repr(value.real) and _has_literal_repr(value.imag)
-    if type(value) in (list, tuple, set, frozenset):
+    if type(value) is frozenset or (type(value) is set and not value):
+        # frozenset({1}) and set() are calls of a name, which the student may have given another meaning
+        return False
+    if type(value) in (list, tuple, set):
         return all(_has_literal_repr(item) for item in value)
     if type(value) is dict:
         return all(_has_literal_repr(k) and _has_literal_repr(v) for k, v in value.items())
